@@ -157,10 +157,18 @@ func runC12(c *evid.Ctx) {
 			c.Violation("C12:roundtrip-diff:"+cls, fmt.Sprintf("Decode(Encode(l)) != l for %s: %s", cls, d), map[string]any{"log": model.Brief(l), "class": cls})
 		}
 		prevCls := fmt.Sprintf("data=%d ext=%d", len(reused.Data), len(reused.Extensions))
+		// what a caller keeps when it copies the struct before re-using it for the next read
+		// (out = append(out, l)): that value must stay what it was
+		kept, keptDeep := reused, model.CopyLog(&reused)
 		if err := codec.Decode(enc, &reused); err != nil {
 			c.Violation("C12:decode-error", fmt.Sprintf("Decode(Encode(l)) into a re-used destination failed for %s: %v", cls, err), map[string]any{"log": model.Brief(l), "class": cls})
 		} else if d := model.LogDiff(&reused, l); d != "" {
 			c.Violation("C12:roundtrip-diff-reused-destination", fmt.Sprintf("Decode(Encode(l)) into a destination that held a previous log (%s) != l for %s: %s", prevCls, cls, d), map[string]any{"log": model.Brief(l), "class": cls, "previous": prevCls})
+		}
+		if i > 0 {
+			if d := model.LogDiff(&kept, keptDeep); d != "" {
+				c.Violation("C12:earlier-result-changed", fmt.Sprintf("a log decoded earlier (%s) and copied by value changed when the same destination struct was decoded into again: %s", prevCls, d), map[string]any{"class": cls, "previous": prevCls})
+			}
 		}
 		c.Count("roundtrips_into_reused_destination", 1)
 		// the decoded log must not reference the input buffer
@@ -205,10 +213,16 @@ func runC12(c *evid.Ctx) {
 		var reusedOut raft.Log
 		check := func(when string) {
 			for _, l := range logs {
+				keptW, keptWDeep := reusedOut, model.CopyLog(&reusedOut)
 				if err := w.GetLog(l.Index, &reusedOut); err != nil {
 					c.Violation("C12:getlog-error:"+when, fmt.Sprintf("GetLog(%d) %s: %v", l.Index, when, err), map[string]any{"log": model.Brief(l)})
 				} else if d := model.LogDiff(&reusedOut, l); d != "" {
 					c.Violation("C12:wal-roundtrip-diff-reused-destination:"+when, fmt.Sprintf("GetLog(%d) %s into a destination that held the previous result differs: %s", l.Index, when, d), map[string]any{"log": model.Brief(l)})
+				}
+				if keptWDeep.Index != 0 {
+					if d := model.LogDiff(&keptW, keptWDeep); d != "" {
+						c.Violation("C12:earlier-result-changed:"+when, fmt.Sprintf("the log returned by GetLog(%d) and copied by value changed when the same destination struct was passed to GetLog(%d): %s", keptWDeep.Index, l.Index, d), map[string]any{"log": model.Brief(l)})
+					}
 				}
 				var out raft.Log
 				if err := w.GetLog(l.Index, &out); err != nil {
